@@ -5,11 +5,30 @@ import vlib
 
 STEPS = ['before_ready', 'after_ready', 'req', 'reply', 'midreply']
 PROC_FAULTS = ['exit0', 'exit1', 'kill9', 'close_stdin', 'close_stdout', 'close_both', 'hang_exit']
-MSG_FAULTS = ['truncated', 'oversized', 'wrong_type', 'garbage', 'bad_version', 'str_wrap', 'arr_huge', 'err_long']
+MSG_FAULTS = ['truncated', 'oversized', 'wrong_type', 'garbage', 'bad_version', 'str_wrap', 'arr_huge', 'deep_nest', 'err_long']
 FAULTS = PROC_FAULTS + MSG_FAULTS
 # the eleven kinds the property names: exit(0), exit(1), SIGKILL, close stdin, close stdout, (close both), short header/payload
-# (truncated), wrong version, wrong type, payload length > max (oversized), undecodable value (str_wrap, arr_huge), garbage,
+# (truncated), wrong version, wrong type, payload length > max (oversized), undecodable value (str_wrap, arr_huge, deep_nest), garbage,
 # hang then exit; err_long = over-long error text
+
+
+def run_model(ref, lines, timeout=600):
+    """line protocol with an unlimited stack (the extracted list functions are not tail recursive; the deep_nest reply is 2.4 MB)"""
+    import subprocess, resource
+
+    def big_stack():
+        try:
+            resource.setrlimit(resource.RLIMIT_STACK, (resource.RLIM_INFINITY, resource.RLIM_INFINITY))
+        except (ValueError, OSError):
+            soft, hard = resource.getrlimit(resource.RLIMIT_STACK)
+            resource.setrlimit(resource.RLIMIT_STACK, (hard, hard))
+    try:
+        r = subprocess.run([ref], input=('\n'.join(lines) + '\n').encode(), capture_output=True, timeout=timeout, preexec_fn=big_stack)
+    except subprocess.TimeoutExpired:
+        raise RuntimeError('%s timed out' % ref)
+    if r.returncode != 0:
+        raise RuntimeError('%s exited %s: %s' % (ref, r.returncode, r.stderr.decode('utf-8', 'replace')[-2000:]))
+    return r.stdout.decode('utf-8', 'replace').splitlines()
 
 
 def root():
